@@ -107,57 +107,95 @@ def exec_merge(ex: Execution, sources: list[list[Any]], pair: bool) -> tuple[Any
 
 
 # ------------------------------------------------------------------------------- debounce
-def exec_debounce(ex: Execution, keys: list[int], d: float, wmax: float) -> tuple[Any, list[Any]]:
+def exec_debounce(ex: Execution, keys: list[int], d: float, wmax: float, more: list[list[int]] | None = None,
+                  concurrent: bool = False) -> tuple[Any, list[Any]]:
+    """``more``: further streams in the same process (same loaded module) - one after the other, or (``concurrent``) all at
+    once; every stream is judged on its own"""
+    streams = [keys] + list(more or [])
     with EngineExec(ex, RunConfig(pair_time=True)) as e:
         mod = _load(ex)
-        out: list[int] = []
-        arrivals: list[int] = []
-        before_close: list[int] = []
-        deb: dict[str, Any] = {}
+        debs: list[Any] = []
         orig_deb = mod.Debouncer
 
         class Deb(orig_deb):  # type: ignore[misc,valid-type]
             def __init__(self, *a: Any, **kw: Any) -> None:
                 super().__init__(*a, **kw)
-                deb["d"] = self
+                debs.append(self)
+
+            def __post_init__(self) -> None:  # (a dataclass-style Debouncer builds itself here)
+                sup = getattr(super(), "__post_init__", None)
+                if sup is not None:
+                    sup()
+                if self not in debs:
+                    debs.append(self)
 
         mod.Debouncer = Deb
+        recs: list[dict[str, Any]] = []
 
-        async def inner() -> Any:
-            for k, key in enumerate(keys):
-                await gate(f"item{k}")
-                arrivals.append(key)
-                # "strictly before the window closed": not in the same loop iteration as a timer firing
-                simultaneous = bool(e.h.trace) and "time" in e.h.trace[-1]
-                if "d" in deb and not deb["d"].is_complete and not simultaneous:
-                    before_close.append(key)
-                yield key
-            await gate("end")
+        def start_stream(si: int, ks: list[int]) -> Any:
+            rec: dict[str, Any] = {"out": [], "arrivals": [], "before_close": [], "keys": ks, "deb_index": None, "opened_at": None, "close_at": None}
+            recs.append(rec)
+            tag = "" if len(streams) == 1 else f"s{si}:"
 
-        async def consume() -> None:
-            async for x in mod.debounced_sorted_prefix(inner(), key=lambda x: x, debounce_seconds=d, max_window_seconds=wmax):
-                out.append(x)
+            async def inner() -> Any:
+                for k, key in enumerate(ks):
+                    await gate(f"{tag}item{k}")
+                    rec["arrivals"].append(key)
+                    # "strictly before the window closed": not in the same loop iteration as a timer firing
+                    simultaneous = bool(e.h.trace) and "time" in e.h.trace[-1]
+                    # reference window (independent of the implementation's own bookkeeping): opens when the stream is first
+                    # iterated, closes debounce_seconds after the latest arrival inside it, at most max_window_seconds after it opened
+                    now = e.loop.vt
+                    if rec["close_at"] is not None and now < rec["close_at"] - 1e-9 and not simultaneous:
+                        rec["before_close"].append(key)
+                        rec["close_at"] = min(now + d, rec["opened_at"] + wmax)
+                    elif rec["close_at"] is not None and now < rec["close_at"] - 1e-9:
+                        rec["close_at"] = min(now + d, rec["opened_at"] + wmax)
+                    yield key
+                await gate(f"{tag}end")
 
-        t = e.loop.create_task(consume())
-        e.cfg.stop_when = lambda hh: t.done()
-        e.drive()
-        v: list[Any] = []
-        w: dict[str, Any] = {}
-        if not t.done():
-            v.append(("debounce_never_finishes", w, f"stuck={e.stuck} out={out} arrivals={arrivals}"))
-        elif t.exception() is not None:
-            v.append(("debounce_raises", w, repr(t.exception())))
+            async def consume() -> None:
+                rec["deb_index"] = len(debs)  # the Debouncer this call is about to create
+                rec["opened_at"] = e.loop.vt
+                rec["close_at"] = e.loop.vt + d
+                async for x in mod.debounced_sorted_prefix(inner(), key=lambda x: x, debounce_seconds=d, max_window_seconds=wmax):
+                    rec["out"].append(x)
+
+            rec["task"] = e.loop.create_task(consume())
+            return rec["task"]
+
+        if concurrent:
+            ts = [start_stream(i, ks) for i, ks in enumerate(streams)]
+            e.cfg.stop_when = lambda hh: all(t.done() for t in ts)
+            e.drive()
         else:
-            if sorted(out) != sorted(arrivals) or len(arrivals) != len(keys):
-                v.append(("item_lost_or_duplicated", w, f"arrived {arrivals}, yielded {out}"))
+            for i, ks in enumerate(streams):
+                t = start_stream(i, ks)
+                e.cfg.stop_when = lambda hh, t=t: t.done()
+                e.stuck = False
+                e.drive()
+                if not t.done():
+                    break
+        v: list[Any] = []
+        for si, rec in enumerate(recs):
+            w: dict[str, Any] = {} if len(streams) == 1 else {"stream": "first" if si == 0 else "later", "concurrent": concurrent}
+            t, out, arrivals, before_close = rec["task"], rec["out"], rec["arrivals"], rec["before_close"]
+            if not t.done():
+                v.append(("debounce_never_finishes", w, f"stuck={e.stuck} out={out} arrivals={arrivals}"))
+            elif t.exception() is not None:
+                v.append(("debounce_raises", w, repr(t.exception())))
             else:
-                k = len(before_close)
-                ok = any(out == sorted(arrivals[:m]) + arrivals[m:] for m in range(k, len(arrivals) + 1))
-                if not ok:
-                    v.append(("later_item_before_sorted_burst", w,
-                              f"arrivals {arrivals} ({k} of them before the window closed), yielded {out}: not "
-                              f"sorted(burst)+rest for any burst containing the first {k} arrivals"))
-        return {"out": out, "arrivals": arrivals, "k": len(before_close), "_metrics": {"max_concurrency": e.h.max_gates}}, v
+                if sorted(out) != sorted(arrivals) or len(arrivals) != len(rec["keys"]):
+                    v.append(("item_lost_or_duplicated", w, f"arrived {arrivals}, yielded {out}"))
+                else:
+                    k = len(before_close)
+                    ok = any(out == sorted(arrivals[:m]) + arrivals[m:] for m in range(k, len(arrivals) + 1))
+                    if not ok:
+                        v.append(("later_item_before_sorted_burst", w,
+                                  f"stream {si}: arrivals {arrivals} ({k} of them before the window closed), yielded {out}: not "
+                                  f"sorted(burst)+rest for any burst containing the first {k} arrivals"))
+        return {"out": [r["out"] for r in recs], "arrivals": [r["arrivals"] for r in recs], "k": [len(r["before_close"]) for r in recs],
+                "_metrics": {"max_concurrency": e.h.max_gates}}, v
 
 
 def programs(tier: str) -> list[Program]:
@@ -183,13 +221,19 @@ def programs(tier: str) -> list[Program]:
         ps.append(Program(f"debounce(keys={keys})", {"keys": keys},
                           (lambda ex, keys=keys: exec_debounce(ex, keys, 1.0, 2.5)),
                           max_dev=(None if len(keys) <= 3 else (4 if q else 6))))
+    # several streams in one process: one after the other, and overlapping
+    for first, more, conc in (([2, 1], [[3, 1, 2]], False), ([2, 1], [[2, 1]], True)) + (() if q else (([3, 1, 2], [[2, 1], [3, 2, 1]], False),
+                                                                                                    ([3, 1, 2], [[2, 1]], True))):
+        ps.append(Program(f"debounce(keys={first};then={more};concurrent={conc})", {"keys": first, "more": more, "concurrent": conc},
+                          (lambda ex, first=first, more=more, conc=conc: exec_debounce(ex, first, 1.0, 2.5, more, conc)),
+                          max_dev=(4 if q else 6)))
     return ps
 
 
 RULE = ("merge_generators over 1-3 sources with <=3 items each and an optional failing source x all release orders, "
         "simultaneous completions and all iteration orders of the done set; debounced_sorted_prefix over 2-5 items "
         "released at explorer-chosen points relative to the debounce / max-window timers (including the same loop "
-        "iteration as the window closing, both orders); non-trivial = at least one deviation from the default schedule")
+        "iteration as the window closing, both orders), also two or three streams in one process, one after the other or overlapping; non-trivial = at least one deviation from the default schedule")
 
 
 def run(tier: str, seed: int) -> Any:
